@@ -808,6 +808,6 @@ func classifyRtsp(c RtspCase) (bool, []string) {
 func TestRtspCommand(t *testing.T) {
 	pbt.Run(t, pbt.Spec[RtspCase]{
 		ID: "C13", Name: "rtsp-command", Gen: genRtspCase, Run: runRtsp, Classify: classifyRtsp, Isolate: true,
-		Quick: 700, Thorough: 6000,
+		Quick: 700, Thorough: 4000,
 	})
 }
